@@ -191,8 +191,8 @@ def run(ctx) -> None:
     r1.note(f"einsum/sum terms visited: {n_terms}; consumed declarations compared: {inferred_consumed}; declared-only "
             f"(not inferable): {declared_only}")
     ctx.extra["terms_visited"] = n_terms
-    if inferred_consumed < 18 and not ctx.findings():
-        raise AnalysisError(f"R08.1: only {inferred_consumed} consumed declarations could be compared (expected ≥ 18)")
+    if inferred_consumed < 12 and not ctx.findings():
+        raise AnalysisError(f"R08.1: only {inferred_consumed} consumed declarations could be compared (expected ≥ 12; 18 on the tree this was written for)")
     for fq, who in roots.items():
         if fq.startswith("?"):
             r1.observe(f"{who[0]} refers to `{fq[1:]}`, which does not exist in the package")
@@ -332,15 +332,22 @@ def run(ctx) -> None:
     # ---------------------------------------------------------------- R08.4
     r4 = ctx.rule("R08.4", "FormulaSum literals add terms of one grade", min_instances=4)
     seen = set()
+    n_terms = n_known = 0
     for node, gs in ge.sum_literals:
         if id(node) in seen:
             continue
         seen.add(id(node))
         r4.instance(f"FormulaSum at line {getattr(node, 'lineno', '?')}: {[show(g) for g in gs]}")
         known = [g for g in gs if g not in (TOP,)]
-        r4.check(len(set(known)) <= 1 and len(known) == len(gs), f"terms {[show(g) for g in gs]}", FRM + "covariant.py", node,
+        n_terms += len(gs)
+        n_known += len(known)
+        if len(known) != len(gs):
+            r4.note(f"FormulaSum at line {getattr(node, 'lineno', '?')}: {len(gs) - len(known)} term(s) of undetermined grade (not decided)")
+        r4.check(len(set(known)) <= 1, f"terms {[show(g) for g in gs]}", FRM + "covariant.py", node,
                  f"a FormulaSum adds terms of parities {[show(g) for g in gs]}: the sum has no definite symmetry (its run-time assert "
                  f"only fires when the calculator is used)", stmt=f"FormulaSum terms {[show(g) for g in gs]}")
+    r4.expect(n_terms == 0 or 2 * n_known >= n_terms, f"grades of FormulaSum terms inferred ({n_known}/{n_terms})", FRM + "covariant.py", None,
+              f"R08.4: the grade of only {n_known} of {n_terms} FormulaSum terms could be inferred")
 
 
 from ..selftest import V  # noqa: E402
